@@ -209,12 +209,15 @@ class SymSet:
 
     def __and__(self, o):
         out = SymSet(self.interp)
+        ys = o.items if isinstance(o, SymSet) else list(o)
         for x in self.items:
-            for y in o.items:
+            for y in ys:
                 if self._same(x, y):
                     out.add(x)
                     break
         return out
+
+    __rand__ = __and__
 
     def sym_contains(self, x):
         return any(self._same(y, x) for y in self.items)
